@@ -73,6 +73,15 @@ fn alphabet() -> Vec<Slot> {
                 v("strs-1-odd", "strs", ss(&["1.2.3"])),
                 v("nul-padded", "str", s("1.2.3\0")),
                 v("empty", "empty", P::Empty),
+                // redundant trailing padding / leading space / empty text (both parities before and after stripping)
+                v("pad-even+nul", "str", s("1.20\0")),
+                v("pad-odd+2nul", "str", s("1.2\0\0")),
+                v("pad-odd+space", "str", s("1.2 ")),
+                v("pad-odd+nul+space", "str", s("1.2.3\0 ")),
+                v("pad-lead-space", "str", s(" 1.2")),
+                v("pad-empty-str", "str", s("")),
+                v("pad-strs-even+nul", "strs", ss(&["1.20\0"])),
+                v("pad-strs-empty", "strs", ss(&[""])),
             ],
         },
         us("CommandField", 0x0100, true),
@@ -81,7 +90,9 @@ fn alphabet() -> Vec<Slot> {
             name: "MoveDestination",
             tag: (0, 0x0600),
             vr: "AE",
-            variants: vec![v("odd", "str", s("A")), v("even", "str", s("AB")), v("max16", "str", s("ABCDEFGHIJKLMNOP")), v("strs-2", "strs", ss(&["A", "BC"]))],
+            variants: vec![v("odd", "str", s("A")), v("even", "str", s("AB")), v("max16", "str", s("ABCDEFGHIJKLMNOP")), v("strs-2", "strs", ss(&["A", "BC"])),
+                v("pad-even+2sp", "str", s("AB  ")), v("pad-even+sp", "str", s("AB ")), v("pad-odd+2sp", "str", s("A  ")), v("pad-lead-space", "str", s(" AB")), v("pad-empty-str", "str", s("")),
+                v("pad-strs-each", "strs", ss(&["A ", "BC "])), v("pad-strs-last", "strs", ss(&["AB", "C  "]))],
         },
         us("Priority", 0x0700, false),
         us("CommandDataSetType", 0x0800, false),
@@ -99,7 +110,9 @@ fn alphabet() -> Vec<Slot> {
             name: "ErrorComment",
             tag: (0, 0x0902),
             vr: "LO",
-            variants: vec![v("odd", "str", s("Bad")), v("even", "str", s("Bad!")), v("strs-1-even", "strs", ss(&["Bad!"]))],
+            variants: vec![v("odd", "str", s("Bad")), v("even", "str", s("Bad!")), v("strs-1-even", "strs", ss(&["Bad!"])),
+                v("pad-odd+2sp", "str", s("x  ")), v("pad-even+2sp", "str", s("xy  ")), v("pad-even+sp", "str", s("xy ")), v("pad-lead-space", "str", s(" x")), v("pad-empty-str", "str", s("")),
+                v("pad-strs-1", "strs", ss(&["x  "])), v("pad-strs-2", "strs", ss(&["x ", "y  "]))],
         },
         Slot {
             name: "AffectedSOPInstanceUID",
@@ -110,6 +123,11 @@ fn alphabet() -> Vec<Slot> {
                 v("multi-even-total", "strs", ss(&["1.2", "3.45"])),
                 v("multi-empty-first", "strs", ss(&["", "1.2"])),
                 v("odd", "str", s("1.2.3")),
+                v("pad-multi-last-even+nul", "strs", ss(&["1.2", "3.40\0"])),
+                v("pad-multi-first-even+nul", "strs", ss(&["1.20\0", "3.4"])),
+                v("pad-multi-each+nul", "strs", ss(&["1.2\0", "3.4\0"])),
+                v("pad-multi-last+2nul", "strs", ss(&["1.2", "3.4\0\0"])),
+                v("pad-multi-all-empty", "strs", ss(&["", ""])),
             ],
         },
         us("NumberOfRemainingSuboperations", 0x1020, false),
@@ -196,7 +214,7 @@ fn even(n: usize) -> usize {
 
 fn main() {
     let check = Check::from_args("C31", Level::Exploration);
-    check.set_rule("every set of <= 3 distinct command elements over 12 command tags (UI, US, UL, AE, LO, AT) x a value alphabet per tag (Str/Strs/typed/empty, odd/even/multi) given to command_from_element_iter in ascending and descending order (thorough: all 6 orders of triples); plus every ordered pair of different values for the same tag, a caller-supplied (0000,0000), and a trailing non-command element; a case is (family, ordered element list); distinct by case id; non-trivial = the command object was built and written in Implicit VR LE");
+    check.set_rule("every set of <= 3 distinct command elements over 12 command tags (UI, US, UL, AE, LO, AT) x a value alphabet per tag (Str/Strs/typed/empty, odd/even/multi, text with redundant trailing NUL/space padding, leading space and empty strings, single and multi-valued, both parities before and after stripping) given to command_from_element_iter in ascending and descending order (thorough: all 6 orders of triples); plus every ordered pair of different values for the same tag, a caller-supplied (0000,0000), and a trailing non-command element; a case is (family, ordered element list); distinct by case id; non-trivial = the command object was built and written in Implicit VR LE");
     check.assume("vx-ref strict parser reads the written group length and element boundaries; expected length is computed from the harness' own value-to-bytes conversion (8 + even(len) per element), not from calculate_byte_len");
     let alpha = alphabet();
     let cases = build_cases(&alpha, check.thorough());
@@ -317,7 +335,10 @@ fn main() {
             l.fail(&case.id, class("compare", "group-length-vs-written"), detail(format!("(0000,0000)={gl} but {measured} bytes of command elements follow")));
             return;
         }
-        if gl != expected_len {
+        // the harness' own length is only authoritative for values given without redundant padding:
+        // for padded text the measured bytes (above) decide, whatever normalisation the writer applies
+        let padded_input = case.elems.iter().any(|(a, b)| alpha[*a].variants[*b].label.starts_with("pad-"));
+        if !padded_input && gl != expected_len {
             l.outcome("group-length-differs-from-reference");
             l.fail(&case.id, class("compare", "group-length-vs-reference"), detail(format!("(0000,0000)={gl}, reference length {expected_len}")));
             return;
@@ -329,7 +350,9 @@ fn main() {
         }
         let oc = match case.family {
             "set-ascending" | "set-descending" | "set-permuted" => {
-                if case.elems.is_empty() {
+                if padded_input {
+                    "exact-with-redundantly-padded-text"
+                } else if case.elems.is_empty() {
                     "exact-empty-command"
                 } else if fs.iter().any(|f| *f == "strs") {
                     "exact-with-multi-valued-text"
